@@ -176,6 +176,8 @@ pub struct Sel {
     pub out: Vec<String>,
     /// the ORDER BY makes the row order total
     pub total_order: bool,
+    /// expressions over the FROM scope that may serve as ORDER BY keys (generator metadata, like `out`)
+    pub order_exprs: Vec<X>,
 }
 
 #[derive(Clone, Debug, PartialEq)]
